@@ -2,6 +2,7 @@ SPECIFICATION Spec
 CONSTANTS
   CwdVariant = "code"
   StatGuard = FALSE
+  CcStopsAtExisting = FALSE
   MaxDepth = 3
   Emit = TRUE
 INVARIANT CTypeOK
